@@ -116,9 +116,9 @@ example : canonUid [48,48,48,48,48,48,48,48,48,48,48,48,48,56,49,99,97,55,50,102
 /-- the read-card request of the model carries the constants of the source (card type 10, dialog control 02,
 short card reading control D0, allowed cards 07). -/
 theorem readcard_constants_match_source :
-    (Generated.consts.find? (·.1 == "CARD_TYPE")).map (·.2) = some "Some(0x10)" ∧
-    (Generated.consts.find? (·.1 == "DIALOG_CONTROL")).map (·.2) = some "Some(0x02)" ∧
-    (Generated.consts.find? (·.1 == "SHORT_CARD_READING_CONTROL")).map (·.2) = some "Some(0xd0)" ∧
-    (Generated.consts.find? (·.1 == "ALLOWED_CARDS")).map (·.2) = some "Some(0x07)" := by decide +kernel
+    (Generated.consts.find? (·.1 == "CARD_TYPE")).map (·.2) = some "Some(16)" ∧
+    (Generated.consts.find? (·.1 == "DIALOG_CONTROL")).map (·.2) = some "Some(2)" ∧
+    (Generated.consts.find? (·.1 == "SHORT_CARD_READING_CONTROL")).map (·.2) = some "Some(208)" ∧
+    (Generated.consts.find? (·.1 == "ALLOWED_CARDS")).map (·.2) = some "Some(7)" := by decide +kernel
 
 end Zvt.C18
